@@ -85,6 +85,10 @@ def gen_value(r):
 
 def gen_reqs(r, n):
     keys = r.shuffle(KEYS)[:r.rng(2, 4)]
+    if r.chance(1, 2):
+        # a long key with multi-byte characters at every alignment around 16 / 32 / 64 / 128
+        n = r.choice([r.rng(0, 140), 14, 15, 30, 31, 32, 62, 63, 64, 126, 127, 128])
+        keys.append(b"a" * n + "é€😀".encode() * 2 + b":p")
     out = []
     for _ in range(n):
         k = r.below(10)
